@@ -57,6 +57,10 @@ func c14Jobs(seed int64, caseIdx int) []c14Job {
 			n = 1
 		}
 		docs := gen.GenBatch(r, sch, n, fmt.Sprintf("c%dj%d", caseIdx, j), gen.DocOpts{Repeat: r.Intn(2) == 0})
+		if j == 2 {
+			// more than 1024 documents with doc values: per-field doc-value state sized for 2+ chunks precedes small builds
+			docs, _ = gen.JumboBatch(r, 1100+r.Intn(1100), fmt.Sprintf("c%dj%d", caseIdx, j))
+		}
 		model.ToSegDocs(docs)
 		jobs = append(jobs, c14Job{docs, gen.Mode(r, n), j % 2})
 	}
